@@ -913,3 +913,140 @@ func (c *Ctx) derivesFromNoFilter(v ssa.Value, d int) bool {
 	}
 	return false
 }
+
+// ---- additional necessary conditions found by the third round of seeded changes ----
+
+func init() {
+	reg := registry["C03"]
+	reg.Meta.Rules["C03.7"] = "the writer's group registry is assigned only after the group has been linked into its parent successfully (a rejected creation must not replace the entry of the existing group)"
+	reg.Meta.Rules["C03.8"] = "an object obtained from a cache or registry look-up is not modified in place on the hit path (two paths to one object would otherwise see each other's name)"
+	reg.Rules = append(reg.Rules, c03registryAfterLink, c03cacheHitsImmutable)
+}
+
+func c03registryAfterLink(c *Ctx, r *Result) {
+	n := 0
+	for _, fn := range c.LibFuncs() {
+		if shortPkg(fnPkgPath(fn)) != "hdf5" {
+			continue
+		}
+		instrs(fn, func(in ssa.Instruction) {
+			mu, ok := in.(*ssa.MapUpdate)
+			if !ok {
+				return
+			}
+			k, _ := fieldLoadKey(mu.Map)
+			if k != "hdf5.FileWriter.groups" {
+				return
+			}
+			n++
+			// root registration (constant "/" key) has no parent to link into
+			if kc, isK := mu.Key.(*ssa.Const); isK && kc.Value != nil && kc.Value.ExactString() == "\"/\"" {
+				r.Hold("C03.7", c.Name(fn)+"#registry-after-link", c.InstrPos(mu), "root group: no parent")
+				return
+			}
+			ok = false
+			for _, site := range callsIn(fn) {
+				if c.calleeName(site) != "hdf5.FileWriter.linkToParent" {
+					continue
+				}
+				call, isCall := site.(*ssa.Call)
+				if !isCall {
+					continue
+				}
+				for _, ref := range *call.Referrers() {
+					bo, isB := ref.(*ssa.BinOp)
+					if !isB || (bo.Op != token.NEQ && bo.Op != token.EQL) {
+						continue
+					}
+					for _, r2 := range *bo.Referrers() {
+						if ifi, isIf := r2.(*ssa.If); isIf {
+							pass := ifi.Block().Succs[1]
+							if bo.Op == token.EQL {
+								pass = ifi.Block().Succs[0]
+							}
+							if edgeDominates(ifi.Block(), pass, mu.Block()) {
+								ok = true
+							}
+						}
+					}
+				}
+			}
+			r.Check(ok, "C03.7", c.Name(fn)+"#registry-after-link", c.InstrPos(mu), "fw.groups[path] is assigned on the nil-error edge of linkToParent only")
+		})
+	}
+	if n < 1 {
+		r.Errorf("C03.7: no assignment to the group registry found")
+	}
+	r.Floor("C03.7", 1)
+}
+
+func c03cacheHitsImmutable(c *Ctx, r *Result) {
+	n := 0
+	for _, fn := range c.LibFuncs() {
+		if shortPkg(fnPkgPath(fn)) != "hdf5" {
+			continue
+		}
+		instrs(fn, func(in ssa.Instruction) {
+			lk, ok := in.(*ssa.Lookup)
+			if !ok {
+				return
+			}
+			mt, ok := lk.X.Type().Underlying().(*types.Map)
+			if !ok {
+				return
+			}
+			if _, isPtr := mt.Elem().Underlying().(*types.Pointer); !isPtr {
+				return
+			}
+			if derefStruct(mt.Elem()) == nil {
+				return
+			}
+			// only maps held in a field (caches / registries), not locals
+			if k, _ := fieldLoadKey(lk.X); k == "" {
+				return
+			}
+			n++
+			var hit ssa.Value = lk
+			if lk.CommaOk {
+				hit = nil
+				for _, ref := range *lk.Referrers() {
+					if ex, isEx := ref.(*ssa.Extract); isEx && ex.Index == 0 {
+						hit = ex
+					}
+				}
+			}
+			if hit == nil {
+				return
+			}
+			// stores through the hit pointer in this function
+			var bad ssa.Instruction
+			seen := map[ssa.Value]bool{}
+			var walk func(v ssa.Value)
+			walk = func(v ssa.Value) {
+				if seen[v] || v.Referrers() == nil {
+					return
+				}
+				seen[v] = true
+				for _, ref := range *v.Referrers() {
+					switch x := ref.(type) {
+					case *ssa.FieldAddr:
+						for _, r2 := range *x.Referrers() {
+							if st, isSt := r2.(*ssa.Store); isSt && st.Addr == ssa.Value(x) {
+								bad = st
+							}
+						}
+					case *ssa.Phi:
+						walk(x)
+					}
+				}
+			}
+			walk(hit)
+			k, _ := fieldLoadKey(lk.X)
+			r.Check(bad == nil, "C03.8", c.Name(fn)+"#"+k+"#hit-not-modified", c.InstrPos(lk), "the object found in "+k+" is used as it is; it is not renamed or rewritten on the hit path")
+		})
+	}
+	if n < 3 {
+		r.Errorf("C03.8: only %d registry/cache look-ups found", n)
+	}
+	r.Floor("C03.8", 3)
+}
